@@ -74,7 +74,7 @@ Section Slicer.
     - (* SlWait *)
       pose proof (slicer_next_wf avg var delay c rest o tot Hwf) as [Hw' _].
       pose proof (slicer_next_sized _ c rest o tot Hwf Hsz) as Hs'.
-      cbn [on_timer].
+      unfold on_timer. cbn [on_timer_gen].
       specialize (IH ps (Z.max now dl) (slicer_next c rest o tot) Hw' Hs').
       destruct (stage_emit tx ps (Z.max now dl) f None (slicer_next c rest o tot)) as [[es sf] psf].
       simpl in IH. destruct IH as (IH1 & IH2 & IH3). simpl.
